@@ -106,7 +106,11 @@ func getFilename(segkey string, cname string, sortMode SortMode) string {
 		suffix = "_str"
 	}
 
-	return filepath.Join(segkey, cname+suffix+".srt") // srt means "sort", not an acronym
+	// A column name may contain path separators; cleaning it as a rooted path first
+	// keeps the file inside the segment's directory whatever the name is.
+	fname := filepath.Join("/", cname+suffix+".srt") // srt means "sort", not an acronym
+
+	return filepath.Join(segkey, fname)
 }
 
 func getTempFilename(segkey string, cname string, sortMode SortMode) string {
